@@ -626,6 +626,23 @@ class Renderer:
             return out
         if nobreak or not self.feat.get("continuations", True) or not self.ch.bool(1, 5):
             return [ind + txt]
+        if self.feat.get("literal_split") and self.ch.bool(1, 2):
+            # continue the statement inside a character literal: `'abc&` / `&def'`; the closing line may end in a comment
+            inside = []
+            q, start = None, 0
+            for i, c in enumerate(txt):
+                if q is None and c in "'\"":
+                    q, start = c, i
+                elif q is not None and c == q:
+                    inside += [k for k in range(start + 2, i - 1) if txt[k - 1] != q and txt[k] != q]
+                    q = None
+            if inside:
+                k = self.ch.choice(inside)
+                second = ind + "  &" + txt[k:]
+                if self.ch.bool(1, 2):
+                    second += " ! formerly: call zz_old_name(1)"
+                self.used.setdefault("continuation", set()).add("inside-literal")
+                return [ind + txt[:k] + "&", second]
         points = safe_break_points(txt)
         if not points:
             return [ind + txt]
